@@ -809,7 +809,7 @@ def gen_scale_case(rng, n=None, shape=None, runner='thread', nproc=None, n_min=5
         if t['kind'] == 'group':
             continue
         r = rng.random()
-        if r < p_fail:
+        if r < (p_fail if shape not in ('chain', 'ladder') else p_fail / 8.0):
             t['outcome'] = rng.choice(['failed', 'error'])
             t['how'] = rng.choice(['return', 'raise', 'object'])
         elif r < p_fail + p_utd and not t['calc_dep']:
